@@ -72,6 +72,8 @@ def main():
             t0 = time.time()
             rc, out = sh(f"./check {c} --tier {tier}", cwd=VERIF, env=env, timeout=7200)
             lines = [l for l in out.splitlines() if l.startswith(("VIOLATION", "KNOWN-FINDING", "[" + c))]
+            lines.sort(key=lambda l: (not l.startswith("VIOLATION"), l.startswith("KNOWN-FINDING")))
+            lines = [l[:300] for l in lines]
             rp = None
             for l in lines:
                 mm = re.search(r"replay=(\S+)", l)
